@@ -431,6 +431,23 @@ pub fn scenario(stream: &str, r: &mut Rng, idx: u64) -> Vec<String> {
                 out.extend(seeks);
             }
         }
+        "merge" if r.chance(1, 12) => {
+            // more sources than a byte can count: the tie-break on the source position must
+            // still order equal keys by the position at which their source was added
+            let k = r.range(257, 300);
+            let shared = gen_keys(r, 3, 1);
+            for i in 0..k {
+                let mut es: Vec<Entry> = Vec::new();
+                for key in &shared {
+                    if r.chance(2, 3) {
+                        es.push((key.clone(), (i as u16).to_be_bytes().to_vec()));
+                    }
+                }
+                es.sort();
+                out.push(format!("msrc {} codec=0 bs=1024", fmt_entries(&es)));
+            }
+            out.push("merge concat 0".into());
+        }
         "merge" => {
             let k = r.below(6);
             let n = r.range(1, 30) as usize;
@@ -454,7 +471,7 @@ pub fn scenario(stream: &str, r: &mut Rng, idx: u64) -> Vec<String> {
         "sorter" | "sorterio" => {
             let minmem = *r.pick(&[64u64, 128, 256, 512, 1024]);
             let init = *r.pick(&[16u64, 32, 64, 128]);
-            let thr = *r.pick(&[0u64, minmem, 2 * minmem]);
+            let thr = *r.pick(&[0u64, minmem, 2 * minmem, minmem + 7, 2 * minmem + 9]);
             let realloc = r.below(2);
             let maxchunks = *r.pick(&[0u64, 1, 2, 3, 5, 25]);
             let stable = if r.chance(3, 4) { 1 } else { 0 };
@@ -474,6 +491,8 @@ pub fn scenario(stream: &str, r: &mut Rng, idx: u64) -> Vec<String> {
             let n = r.range(1, 25) as usize;
             let shape = r.below(5);
             let pool = gen_keys(r, n, shape);
+            let only_empty = r.chance(1, 10);
+            let tail_empty = r.chance(1, 6);
             for _ in 0..r.range(0, 120) {
                 let k = r.pick(&pool).clone();
                 let k: Vec<u8> = k.into_iter().take(budget as usize / 8).collect();
@@ -484,7 +503,17 @@ pub fn scenario(stream: &str, r: &mut Rng, idx: u64) -> Vec<String> {
                     _ => r.range(1, 6),
                 } as usize;
                 let v = r.bytes(vlen);
-                out.push(format!("sins {} {}", hex(&k), hex(&v)));
+                if only_empty {
+                    out.push("sins - -".into());
+                } else {
+                    out.push(format!("sins {} {}", hex(&k), hex(&v)));
+                }
+            }
+            if tail_empty {
+                // the entries pending at the final flush are all (empty key, empty value)
+                for _ in 0..r.range(1, 3) {
+                    out.push("sins - -".into());
+                }
             }
             out.push(format!("sfinish {}", r.pick(&["stream", "writer", "cursors"])));
         }
@@ -630,6 +659,33 @@ pub fn fault_scenarios(r: &mut Rng, idx: u64, out: &mut Vec<String>) {
                     out.push(format!("!sins {} {}", k, v));
                 }
                 out.push("!sfinish stream".into());
+            }
+            // chunks spanning several blocks: faults while a merge crosses a block boundary
+            let big: Vec<(String, String)> = (0..60u32).map(|i| (hex(&(i * 7 % 60).to_be_bytes()), hex(&r.bytes(150)))).collect();
+            for k in (1..260).step_by(2) {
+                out.push(format!("S fault-cb-{}-{}", idx, k));
+                out.push("scfg thr=0 minmem=4096 init=4096 realloc=0 maxchunks=2 stable=1 par=0 codec=0 bs=1024".into());
+                out.push(format!("sfault op:{}:{}", k, tag));
+                out.push("snew concat 0".into());
+                for (k, v) in &big {
+                    out.push(format!("!sins {} {}", k, v));
+                }
+                out.push("!sfinish stream".into());
+            }
+            // merger sources spanning several blocks, one of them failing at its n-th seek / read
+            let mut srcs = Vec::new();
+            for j in 0..3u32 {
+                let es: Vec<Entry> = (0..40u32).filter(|i| (i + j) % 3 != 0).map(|i| (i.to_be_bytes().to_vec(), r.bytes(100))).collect();
+                srcs.push(format!("msrc {} codec=0 bs=1024 levels={}", fmt_entries(&es), j % 3));
+            }
+            for k in 1..40 {
+                for kind in ["seek", "read"] {
+                    out.push(format!("S fault-ms-{}-{}-{}", idx, kind, k));
+                    out.extend(srcs.iter().cloned());
+                    out.push(format!("srcopt fault={}:{}:{}", kind, k, tag));
+                    out.push("!merge concat 0".into());
+                    out.push("!mergew concat 0".into());
+                }
             }
         }
     }
